@@ -13,53 +13,42 @@ Open Scope N_scope.
 
 (* ---------------- restart ---------------- *)
 
-(* Take ANY state s the constructor returned for configuration c (home LAN given as a network address), let
-   the lease table evolve to ANY table t with distinct keys that is outside the recorded class (no Allocated
-   lease with an empty client id) and satisfies the server invariant alloc_in_net1 (every acknowledged address
-   lies in net1: C11, since /repo 7baf630), save it in ANY map iteration order, write and read it through a
-   round-tripping file/YAML oracle, and construct again under ANY capture state: the new handler has the same
-   subnets and exactly the acknowledged (client id, MAC, IP) bindings. *)
-Theorem C18_restart_partial :
+(* Take ANY state s the constructor returned for configuration c, let the lease table evolve to ANY table t with
+   distinct keys that satisfies the server invariant [persistable] (every acknowledged lease has a client id and an
+   address inside net1: what the DHCP state machine guarantees since /repo 7baf630 and ec7166b, clusters C11/C12),
+   save it in ANY map iteration order, write and read it through a round-tripping file/YAML oracle, and
+   construct again under ANY capture state: the new handler has the same subnets and exactly the acknowledged
+   (client id, MAC, IP) bindings.  No recorded defect class is left in the statement. *)
+Theorem C18_restart :
   forall (text : Type) (print : doc -> text) (read : text -> input),
   yaml_roundtrip text print read ->
   forall c cap0 i0 s cap t ord,
-    home_masked c ->
     new c cap0 i0 = Ok s ->
-    known_C18_restart t = false -> alloc_in_net1 (d_n1 s) t = true ->
+    persistable (d_n1 s) t = true ->
     NoDup (map l_cid t) -> Permutation ord t ->
     exists s', new c cap (read (print (save (d_n1 s) (d_n2 s) ord))) = Ok s'
                /\ d_n1 s' = d_n1 s /\ d_n2 s' = d_n2 s
                /\ d_table s' = map (restored cap (d_n2 s)) (save_leases ord)
                /\ Permutation (bindings (d_table s')) (acked_bindings t).
 Proof. exact restart_partial. Qed.
-Print Assumptions C18_restart_partial.
+Print Assumptions C18_restart.
 
-(* The full statement (every table satisfying the invariant) is refuted by the faithful model: an acknowledged
-   lease with an empty client id is saved without it and then dropped by loadByteArray. *)
-Theorem C18_restart_refuted :
-  exists c s t,
-    home_masked c /\ new c (fun _ => false) ReadErr = Ok s /\ NoDup (map l_cid t)
-    /\ alloc_in_net1 (d_n1 s) t = true
-    /\ known_C18_restart t = true
-    /\ exists s', new c (fun _ => false) (Doc SumOk (save (d_n1 s) (d_n2 s) t)) = Ok s'
-                  /\ ~ Permutation (bindings (d_table s')) (acked_bindings t).
-Proof. exact restart_refuted. Qed.
-Print Assumptions C18_restart_refuted.
-
-(* the invariant hypothesis cannot be dropped either (such tables are unreachable since /repo 7baf630) *)
+(* neither half of the invariant can be dropped: an Allocated lease with an empty client id, or with an address
+   outside net1, is saved and then dropped by loadByteArray (both unreachable since the /repo repairs) *)
 Theorem C18_restart_needs_invariant :
+  forall r, r = ex_rec_nocid \/ r = ex_rec_offnet ->
   exists c s t,
-    home_masked c /\ new c (fun _ => false) ReadErr = Ok s /\ NoDup (map l_cid t)
-    /\ known_C18_restart t = false /\ alloc_in_net1 (d_n1 s) t = false
+    t = [{| l_rec := r; l_sub := 1 |}]
+    /\ new c (fun _ => false) ReadErr = Ok s /\ NoDup (map l_cid t)
+    /\ persistable (d_n1 s) t = false
     /\ exists s', new c (fun _ => false) (Doc SumOk (save (d_n1 s) (d_n2 s) t)) = Ok s'
                   /\ ~ Permutation (bindings (d_table s')) (acked_bindings t).
 Proof. exact restart_needs_invariant. Qed.
 Print Assumptions C18_restart_needs_invariant.
 
 Example C18_restart_nonvacuous :
-  exists s, home_masked ex_cfg /\ new ex_cfg (fun _ => false) ReadErr = Ok s
-    /\ known_C18_restart [{| l_rec := ex_rec; l_sub := 1 |}] = false
-    /\ alloc_in_net1 (d_n1 s) [{| l_rec := ex_rec; l_sub := 1 |}] = true
+  exists s, new ex_cfg (fun _ => false) ReadErr = Ok s
+    /\ persistable (d_n1 s) [{| l_rec := ex_rec; l_sub := 1 |}] = true
     /\ acked_bindings [{| l_rec := ex_rec; l_sub := 1 |}] <> [].
 Proof. exact restart_nonvacuous. Qed.
 Print Assumptions C18_restart_nonvacuous.
@@ -68,17 +57,16 @@ Print Assumptions C18_restart_nonvacuous.
 
 (* The clause "for a file truncated at any byte offset or otherwise corrupted, construction yields either the
    intact bindings or an empty table, never anything else", for the damage model [dmg] under the named hypothesis
-   checksum_detects (the integrity line written by saveConfig since the fourth #23 repair): reading a damaged
-   version of a saved file gives an error, a checksum mismatch, the original document, or a lease-less document.
+   checksum_detects (the integrity line written by saveConfig since /repo 378cfcf): reading a damaged version of
+   a saved file gives an error, a checksum mismatch, the original document, or a lease-less document.
    The hypothesis is about sha256 and yaml.v2 and is validated by the enumeration of the correspondence run
    (every byte prefix, substitutions, line deletions/duplications of real lease files). *)
 Theorem C18_damaged_intact_or_empty :
   forall (text : Type) (print : doc -> text) (read : text -> input) (dmg : text -> text -> Prop),
   checksum_detects text print read dmg ->
   forall c cap0 i0 s cap t ord x,
-    home_masked c ->
     new c cap0 i0 = Ok s ->
-    known_C18_restart t = false -> alloc_in_net1 (d_n1 s) t = true ->
+    persistable (d_n1 s) t = true ->
     NoDup (map l_cid t) -> Permutation ord t ->
     dmg x (print (save (d_n1 s) (d_n2 s) ord)) ->
     (exists s', new c cap (read x) = Ok s' /\ Permutation (bindings (d_table s')) (acked_bindings t))
@@ -93,7 +81,6 @@ Theorem C18_restart_fixpoint :
   forall (text : Type) (print : doc -> text) (read : text -> input),
   yaml_roundtrip text print read ->
   forall c cap0 i0 s cap,
-    home_masked c ->
     new c cap0 i0 = Ok s ->
     exists s', new c cap (read (print (save (d_n1 s) (d_n2 s) (d_table s)))) = Ok s'
                /\ d_n1 s' = d_n1 s /\ d_n2 s' = d_n2 s
@@ -101,12 +88,11 @@ Theorem C18_restart_fixpoint :
 Proof. exact restart_fixpoint. Qed.
 Print Assumptions C18_restart_fixpoint.
 
-(* every constructed table has distinct keys, only Allocated leases, is outside the recorded restart class and satisfies the invariant *)
+(* every constructed table has distinct keys, only Allocated leases, and satisfies the invariant *)
 Theorem C18_new_table_wf : forall c cap i s, new c cap i = Ok s ->
   NoDup (map l_cid (d_table s))
   /\ (forall l, In l (d_table s) -> allocated l = true)
-  /\ known_C18_restart (d_table s) = false
-  /\ alloc_in_net1 (d_n1 s) (d_table s) = true.
+  /\ persistable (d_n1 s) (d_table s) = true.
 Proof. exact new_table_wf. Qed.
 Print Assumptions C18_new_table_wf.
 
@@ -138,26 +124,20 @@ Example C18_load_filters_nonvacuous :
 Proof. exact load_filters_nonvacuous. Qed.
 Print Assumptions C18_load_filters_nonvacuous.
 
-(* For ANY input of the constructor: every lease of the constructed table is Allocated, has a client id,
-   occurs in the document, and — unless the file's net1 prefix is shorter than the home LAN's — lies inside
-   the HOME subnet of the session. *)
-Theorem C18_new_table_partial : forall c cap i s,
+(* For ANY input of the constructor (missing file, YAML error, checksum verdict, ANY document): every lease of
+   the constructed table is Allocated, has a client id, occurs in a document that did not fail the integrity
+   check, and lies inside the HOME subnet of the session.  Full strength since /repo e01fd08 (configChanged
+   compares the prefix length too); before, a file whose net1 prefix was shorter than the home LAN's restored
+   leases outside the home subnet. *)
+Theorem C18_new_table : forall c cap i s,
   new c cap i = Ok s ->
   forall l, In l (d_table s) ->
     allocated l = true
     /\ r_cid (l_rec l) <> []
-    /\ (exists st d, i = Doc st d /\ In (l_rec l) (d_leases d))
-    /\ (known_C18_bits c i = false -> contains (c_home c) (r_ip (l_rec l)) = true).
+    /\ (exists st d, i = Doc st d /\ st <> SumBad /\ In (l_rec l) (d_leases d))
+    /\ contains (c_home c) (r_ip (l_rec l)) = true.
 Proof. exact new_table_filters. Qed.
-Print Assumptions C18_new_table_partial.
-
-(* configChanged compares LAN.Addr() only: net1 192.168.0.0/16 on home 192.168.0.0/24 restores 192.168.1.5 *)
-Theorem C18_new_in_home_refuted :
-  exists s l, new ex_cfg (fun _ => false) (Doc SumAbsent ex_doc_wide) = Ok s /\ In l (d_table s)
-              /\ contains (c_home ex_cfg) (r_ip (l_rec l)) = false
-              /\ known_C18_bits ex_cfg (Doc SumAbsent ex_doc_wide) = true.
-Proof. exact new_in_home_refuted. Qed.
-Print Assumptions C18_new_in_home_refuted.
+Print Assumptions C18_new_table.
 
 (* ---------------- totality ---------------- *)
 
@@ -184,7 +164,7 @@ Print Assumptions C18_new_total_nonvacuous.
 (* every state the constructor returns carries subnets that re-validate to themselves and match the
    configuration (so the next restart does not reset) *)
 Theorem C18_new_stable : forall c cap i s,
-  home_masked c -> new c cap i = Ok s -> cfg_ok c = true /\ stable c (d_n1 s) (d_n2 s).
+  new c cap i = Ok s -> cfg_ok c = true /\ stable c (d_n1 s) (d_n2 s).
 Proof. exact new_stable. Qed.
 Print Assumptions C18_new_stable.
 
